@@ -52,6 +52,8 @@ def _self_recursion(I, name: str) -> bool:
     if not I.stack:
         return False
     top = I.stack[-1].qualname.split(".")[-1]
+    if top == "__call__" and name.endswith(".__call__"):          # a callable object calling itself: self(child)
+        return I.stack[-1].qualname == name or I.stack[-1].qualname.endswith("." + name)
     return top == name.split(".")[-1] and not top.startswith("<") and (name == top or name.startswith(("self.", "cls.")))
 
 
@@ -187,40 +189,59 @@ def _kernel_info(db, chk, cs, rule="C13.R1-kernel-info"):
                 tt, okf = {"reads": T.show(u.args[0])[:80]}, None
             chk.ob(rule, "the kernel-info rows written to the frame include every event id >= 0 (id 0 is the first event of the file)", okf, where, found={"predicate": T.show(e["pred"])[:100], "table": {str(k_): v_ for k_, v_ in tt.items()}},
                    accepted="index >= 0 (only the negative per-thread roots are dropped)", why="`index > 0` leaves the first event of the file with num_kernels 0: an operator instance that opens the trace is never counted")
-    # device leaf: the nested _dfs analysed on its own (closure supplied)
-    from ..core.values import Ser
-    dctx = (FD, T.cmp("!=", T.col(FD, "stream"), T.C(-1)), None)
-    kinfo = {}
-    I = Interp(db)
-    runs = I.explore(ref + "._dfs", lambda I: {"idx": IDX},
-                     lambda I: {"self": Obj("self", attrs={"nodes": {IDX: _node("leaf", device=("enum", "DeviceType", "GPU"), children=[])}}),
-                                "s_start": Ser(T.col(FD, "ts"), dctx), "s_end": Ser(T.col(FD, "end"), dctx), "s_dur": Ser(T.col(FD, "dur"), dctx),
-                                "kernel_info": kinfo, "t_max": T.P("TMAX"), "KernelInfo": ("ntclass", "KernelInfo", tuple(fields))})
-    leafs = [r.ret for r in runs if r.raised is None and isinstance(r.ret, Obj) and to_term(r.ret.attrs.get("count")) == T.C(1)]
+    # device leaf: the whole method evaluated on a graph whose root is one device activity (whatever closure / method / function object does the walk)
+    # (a host root with ONE device child K1; the walk's own recursion is followed - it ends at the leaf)
+    def leaf_hook(I, name, pos, kw, node):
+        if name.endswith("DataFrame.from_dict"):
+            return Frame(("kernelinfo",))
+        return NotImplemented
+    try:
+        lruns = [r for r in Interp(db, call_hook=leaf_hook, decide=assume(("hascol", FD, "num_kernels"), T.cmp(">=", IDX, T.C(0)), T.cmp(">=", K1, T.C(0)))).explore(
+            ref, lambda I: {"self": Obj("self", cls=(cs, "CallStackGraph"), attrs={"nodes": {IDX: _node("node", device=("enum", "DeviceType", "CPU"), children=[K1]),
+                                                                                              K1: _node("leaf", device=("enum", "DeviceType", "GPU"), children=[])},
+                                                                                    "root_index": IDX, "full_df": Frame(FD), "identity": "id"}), "root_index": None, "apply_whole_graph": False})
+                 if r.raised is None]
+    except AnalysisError:
+        lruns = []
+    leaf_runs = []
+    for r in lruns:
+        ki_ = r.env.get("kernel_info")
+        if isinstance(ki_, dict) and K1 in ki_ and isinstance(ki_[K1], Obj) and to_term(ki_[K1].attrs.get("count")) == T.C(1):
+            leaf_runs.append((r, ki_[K1]))
+    dctx = None
     # ... under a condition that only asks whether the activity is KNOWN (its id is in the lookup tables), never what its values are
-    for r in [r for r in runs if r.raised is None and isinstance(r.ret, Obj) and to_term(r.ret.attrs.get("count")) == T.C(1)][:1]:
-        conds = list(r.path)
-        membership = lambda c: isinstance(c, tuple) and c and c[0] == "in" and c[1] == IDX
+    for r, _o in leaf_runs[:1]:
+        conds = [c for c in r.path if T.find(c, lambda s_: s_ == K1) and not (isinstance(c, tuple) and c and c[0] == "cmp")]          # (idx >= 0 is the caller's assumption)
+        membership = lambda c: isinstance(c, tuple) and c and c[0] == "in" and c[1] == K1
         value_tests = [c for c in conds if not membership(c) and T.find(c, lambda s_: isinstance(s_, tuple) and len(s_) == 3 and s_[0] == "at")]
         other = [c for c in conds if not membership(c) and c not in value_tests]
         chk.ob(rule, "device leaf: an activity counts as a kernel whenever its id is in the lookup tables (no test on its duration / times)", (not value_tests) if not other else None, where,
                found=[T.show(c)[:120] for c in conds], accepted="idx in s_start",
                why="`if s_dur.get(idx):` treats a zero-length activity as unknown: its ancestors lose a kernel (num_kernels, first/last kernel times, span)")
-    if not leafs:
-        chk.ob(rule, "device leaf: kernel info returned", None, where, found=len(runs))
+    if not leaf_runs:
+        chk.ob(rule, "device leaf: kernel info returned", None, where, found=len(lruns))
     else:
-        a = {k: to_term(v) for k, v in leafs[0].attrs.items() if k != "__fields__"}
-        at = lambda c: ("at", ("loc", dctx, IDX), T.col(FD, c))
+        a = {k: to_term(v) for k, v in leaf_runs[0][1].attrs.items() if k != "__fields__"}
+        fs = a.get("first_start")
+        if isinstance(fs, tuple) and len(fs) == 3 and fs[0] == "at" and isinstance(fs[1], tuple) and len(fs[1]) == 3 and fs[1][0] == "loc" and fs[1][2] == K1:
+            dctx = fs[1][1]
+        at = lambda c: ("at", ("loc", dctx, K1), T.col(FD, c))
         want = {"count": T.C(1), "sum_dur": at("dur"), "kernel_span": T.sub(at("end"), at("ts")), "first_start": at("ts"), "last_end": at("end")}
-        chk.ob(rule, "device leaf: (count, dur, span, start, end) = (1, its dur, end - ts, its ts, its end) read at the node's own id", a == want, where,
+        chk.ob(rule, "device leaf: (count, dur, span, start, end) = (1, its dur, end - ts, its ts, its end) read at the node's own id", (a == want) if dctx is not None else None, where,
                found={k: T.show(v)[:70] for k, v in a.items()}, accepted={k: T.show(v)[:70] for k, v in want.items()})
-    gk = []
-    for pat in ("$o.loc[$o.stream.ne(-1)][['ts', 'dur', 'end']]", "$o.loc[$o['stream'].ne(-1)][['ts', 'dur', 'end']]", "$o.loc[$o.stream != -1][['ts', 'dur', 'end']]",
-                "$o.loc[$o['stream'] != -1][['ts', 'dur', 'end']]", "$o[$o['stream'] != -1][['ts', 'dur', 'end']]", "$o[$o.stream.ne(-1)][['ts', 'dur', 'end']]"):
-        gk += [n for n, b in H.find_match(pat, fn, nested=False)]
-    series = {c: H.find_match(f"$s = $g['{c}']", fn, nested=False) for c in ("ts", "end", "dur")}
-    chk.ob(rule, "the kernel lookup tables hold the device rows of this graph (stream != -1), columns ts / end / dur", len(gk) == 1 and all(len(v) == 1 for v in series.values()), where,
-           found=[ast.unparse(g) for g in gk], accepted="ops.loc[ops.stream.ne(-1)][['ts', 'dur', 'end']]")
+    # the lookup tables: rows of this graph's frame on device streams (decided on the row set the leaf's values were read from)
+    okt = None
+    if dctx is not None and isinstance(dctx, tuple) and len(dctx) == 3 and dctx[0] == FD:
+        conj = list(dctx[1][1]) if dctx[1][0] == "and" else [dctx[1]]
+        st_only = [c for c in conj if T.find(c, lambda s_: s_ == T.col(FD, "stream"))]
+        rest = [c for c in conj if c not in st_only]
+        try:
+            tt = {sv: bool(T.evaluate(T.and_(*st_only), lambda leaf, sv=sv: sv if leaf == T.col(FD, "stream") else (_ for _ in ()).throw(T.Unknown(leaf)))) for sv in (-1, 0, 7)} if st_only else None
+        except T.Unknown:
+            tt = None
+        okt = tt == {-1: False, 0: True, 7: True} and all(c[0] == "in" and c[1] == T.col(FD, "index") for c in rest if isinstance(c, tuple) and c)
+    chk.ob(rule, "the kernel lookup tables hold the device rows of this graph (stream != -1), columns ts / end / dur", okt, where,
+           found=T._ctx(dctx)[:200] if dctx is not None else "row set of the lookup tables not identified", accepted="ops.loc[ops.stream.ne(-1)][['ts', 'dur', 'end']]")
     # write-back agreement (names of the stack columns <-> namedtuple fields)
     pairs = {}
     for n in ast.walk(H.unroll_literal_loops(cs, fn)):
@@ -234,8 +255,12 @@ def _kernel_info(db, chk, cs, rule="C13.R1-kernel-info"):
     nt = [c for c in ast.walk(fn) if isinstance(c, ast.Call) and H.name_id(c.func) == "namedtuple"]
     order = [lit(x.args[1]) for x in nt if len(x.args) > 1]
     # ... or a NamedTuple class of the module whose instances the function builds
+    units = list(H.with_private_callees(cs, fn, depth=2))
+    for cname, cdef in cs.classes.items():          # (function objects the method instantiates: their methods belong to the walk)
+        if any(isinstance(c, ast.Call) and H.name_id(c.func) == cname for c in ast.walk(fn)):
+            units += [g for q_, g in cs.functions.items() if q_.startswith(cname + ".")]
     for cname, cdef in cs.classes.items():
-        if any(isinstance(b, ast.Name) and b.id == "NamedTuple" for b in cdef.bases) and any(isinstance(c, ast.Call) and H.name_id(c.func) == cname for c in ast.walk(fn)):
+        if any(isinstance(b, ast.Name) and b.id == "NamedTuple" for b in cdef.bases) and any(isinstance(c, ast.Call) and H.name_id(c.func) == cname for u_ in units for c in ast.walk(u_)):
             order.append(" ".join(st_.target.id for st_ in cdef.body if isinstance(st_, ast.AnnAssign) and isinstance(st_.target, ast.Name)))
     chk.ob(rule, "KernelInfo field order", (order == ["count sum_dur kernel_span first_start last_end"]) if order else None, where, found=order, accepted="count sum_dur kernel_span first_start last_end")
     chk.floor(rule, 7)
